@@ -123,17 +123,28 @@ template<class CT> void c_dynamic_case(Ctx &c) {
         for (auto &t : o) { auto p1 = t.find(':', 2); ops.push_back({t[0], fromstr<K>(t.substr(2, p1 - 2)), fromstr<K>(t.substr(p1 + 1))}); }
     } else {
         bool use_bulk = r.chance(1, 2);
+        // deep histories: the C interface fixes base 8 (buffer 585, level 4 = 4096, level 5 = 32768): a bulk load of more
+        // than 4096 pairs lands in level 5, ~4100 further distinct inserts make level 4 overflow into it, so that keys live
+        // in three levels at once (buffer / level 4 / level 5) when tombstones are merged down
+        bool deep = r.chance(1, 6);
+        if (deep) {
+            keyspace = r.pick<uint64_t>({12000, 20000, 40000});
+            kbase = r.pick<uint64_t>({0, D::R - keyspace, (D::R - keyspace) / 2});
+            use_bulk = r.chance(3, 4);
+        }
         if (use_bulk) {
-            size_t nb = r.below(std::min<uint64_t>(2 * keyspace, 2500) + 1);
+            size_t nb = deep ? 4200 + r.below(12000) : r.below(std::min<uint64_t>(2 * keyspace, 2500) + 1);
             std::vector<uint64_t> ks;
             for (size_t i = 0; i < nb; ++i) ks.push_back(r.below(keyspace + 1));
             std::sort(ks.begin(), ks.end());
             for (auto k : ks) bulk.push_back({key(k), val()});
         }
         size_t nops = r.chance(1, 4) ? 600 + r.below(c.thorough() ? 6000 : 2500) : r.below(500);
+        if (deep) nops = 9000 + r.below(c.thorough() ? 9000 : 4000);
         for (size_t i = 0; i < nops; ++i) {
             int d = int(r.below(100));
             char t = d < 50 ? 'I' : d < 70 ? 'E' : d < 85 ? 'F' : d < 93 ? 'L' : d < 97 ? 'B' : 'S';
+            if (deep) t = d < 62 ? 'I' : d < 92 ? 'E' : d < 98 ? 'F' : d < 99 ? 'L' : 'S'; // mostly updates; walks are O(n) each
             ops.push_back({t, key(r.below(keyspace + 1)), val()});
         }
     }
@@ -233,6 +244,7 @@ template<class CT> void c_dynamic_case(Ctx &c) {
     c.count("iterator_steps", steps);
     c.maxc("max_live_keys", max_live);
     if (max_live > 600) c.count("histories_beyond_buffer");
+    if (max_live > 8000) c.count("deep_histories_three_levels");
     c.nontrivial = max_live > 600; // the default buffer holds 585 entries: beyond it at least one merge happened
     if (c.prop("C17")) c.nontrivial = true;
     if (c.want_sample()) c.sample(J().num("ops", ops.size()).num("bulk", bulk.size()).num("final_size", m.size()));
